@@ -56,11 +56,11 @@ package mp4
 // Fragment: Size() as reported after the call (trun optimisation and data offsets are applied first)
 //@ func (*Fragment).EncodeSW
 //@   ensures[C02] result == nil && kidsOK(f.Children) ==> adv(sw, int(f.Size()))
-//@   trustkind pre:schema:boxEncodeSW
+//@   trustkind pre:schema:boxEncodeSW pre:mp4.(*TrafBox).OptimizeTfhdTrun
 //@   loop 1 invariant adv(sw, int(sizeSum(f.Children, idx(1))))
 //@ func (*Fragment).Encode
 //@   ensures[C02] result == nil && kidsOK(f.Children) ==> ghost(w).wlen == old(ghost(w).wlen) + int(f.Size())
-//@   trustkind pre:schema:boxEncode
+//@   trustkind pre:schema:boxEncode pre:mp4.(*TrafBox).OptimizeTfhdTrun
 //@   loop 1 invariant ghost(w).wlen == old(ghost(w).wlen) + int(sizeSum(f.Children, idx(1)))
 
 // File: progressive and box-tree mode (segment mode goes through media segments, whose sizes are sums over fragments that are
